@@ -42,7 +42,15 @@ RtaFails(e) ==
 \* two calls that model the same system: same Ok value / both Err
 SameResult(a, b) == (IsOk(a) /\ IsOk(b) /\ a.ok = b.ok) \/ (IsErr(a) /\ IsErr(b))
 AgreeFails(e) ==
-    IF \E i \in 1..Len(e.out.rs) : ("panic" \in DOMAIN e.out.rs[i] \/ "hang" \in DOMAIN e.out.rs[i])
+    IF "rs" \notin DOMAIN e.out THEN {"returns"}
+    ELSE IF \E i \in 1..Len(e.out.rs) : ("panic" \in DOMAIN e.out.rs[i] \/ "hang" \in DOMAIN e.out.rs[i])
     THEN {"returns"}
     ELSE IF \A i \in 2..Len(e.out.rs) : SameResult(e.out.rs[1], e.out.rs[i]) THEN {} ELSE {e.in.family}
+
+\* equal relative deadlines: the largest NP-EDF bound over all tasks = the FIFO bound
+AgreeMaxFails(e) ==
+    IF "fifo" \notin DOMAIN e.out THEN {"returns"} ELSE
+    LET all == <<e.out.fifo>> \o e.out.np
+    IN IF \E i \in 1..Len(all) : ("panic" \in DOMAIN all[i] \/ "hang" \in DOMAIN all[i]) THEN {"returns"}
+       ELSE IF SameResult(e.out.fifo, MaxResponseTime(e.out.np)) THEN {} ELSE {e.in.family}
 =============================================================================
